@@ -425,7 +425,7 @@ func matrixC05R(t *testing.T, r *ev.Run, R time.Duration) {
 		}
 		for _, which := range []string{"latest-IK", "latest-SK", "older-IK", "older-SK"} {
 			for _, off := range offsets {
-				for _, variant := range []int{0, 1, 2, 3} {
+				for _, variant := range []int{0, 1, 2, 3, 4} {
 					otherRotates := variant == 1
 					faulty := variant == 2 // a transient read error hits the periodic re-check once per interval
 					// variant 3: for the whole time after the revocation the KMS cannot wrap new system keys (unwrapping
@@ -435,8 +435,24 @@ func matrixC05R(t *testing.T, r *ev.Run, R time.Duration) {
 						continue
 					}
 					name := fmt.Sprintf("c05/%s/R=%s/%s/%s/offset=%s/other=%v/faulty=%v/kms-cannot-wrap=%v", scriptedBackend, R, nc.name, which, off, otherRotates, faulty, cannotWrap)
+					// variant 4: the keys were created by another process two precision units before the long-lived session
+					// cached them, so a replacement is creatable from the moment of the flip and the bound is sharp: one
+					// interval after the flip (for a key flagged the moment it was cached) the cached copy is stale
+					earlier := variant == 4
+					if earlier && (scriptedBackend != "memory" || off != 0 || R == 0 || (which != "latest-SK" && which != "latest-IK")) {
+						continue
+					}
+					if earlier {
+						name += "/keys-created-earlier"
+					}
 					scripted(t, r, name, OC05|OC01, E, R, P, func(h *hist) {
 						time.Sleep(23 * time.Second)
+						if earlier {
+							fp := h.factWith(nc.cfg)
+							h.encrypt(h.openSess(fp, "P"))
+							h.closeFact(fp)
+							time.Sleep(2*P + 7*time.Second)
+						}
 						fa := h.factWith(nc.cfg)
 						s := h.openSess(fa, "P")
 						if which == "older-IK" || which == "older-SK" {
@@ -474,8 +490,24 @@ func matrixC05R(t *testing.T, r *ev.Run, R time.Duration) {
 							bs := h.openSess(fb, "P")
 							h.encrypt(bs)
 						}
+						flipped := time.Now()
 						for i := 0; i < 16; i++ {
-							time.Sleep(step)
+							if i == 4 && R > 0 && !faulty && !cannotWrap {
+								// ... and right after one interval has passed since the flip (for a key flagged the moment it
+								// was cached that is the first instant at which the cached copy counts as stale): the bound is
+								// one interval, not one interval and a bit
+								for _, eps := range []time.Duration{time.Microsecond, R / 100, R / 40, R / 15} {
+									if at := flipped.Add(R + eps); at.After(time.Now()) {
+										time.Sleep(time.Until(at))
+										h.encrypt(s)
+									}
+								}
+								if at := flipped.Add(5 * step); at.After(time.Now()) {
+									time.Sleep(time.Until(at))
+								}
+							} else {
+								time.Sleep(step)
+							}
 							// the first re-check of the cached key after the flip meets a transient read error
 							// (armed on every encrypt until one read actually happens and fails)
 							from := h.w.MS.N()
